@@ -46,6 +46,21 @@ def check(run, prog):
     kb = sp.Symbol("kbin", integer=True)
 
     # ------------------------------------------------------------------ R1 transfer function
+    # dedispersing to infinite frequency (the usual reference when arrival times are quoted "at infinite frequency"): 1/f_ref is 0
+    # and the statement's form stays finite; an algebraically equal rewrite that divides by f_ref**2 gives inf/inf there
+    ev = ck.evaluator()
+    hinf = ck.attempt("R1", f_chirp.where, "chirp_function(N, dt, f_c, f_ref = inf)", "evaluates for an infinite reference frequency",
+                      lambda: ev.call(f_chirp, [Num(N), Num(1 / (SR * Hz), kind="quantity"), q(fc), Num(sp.oo * Hz, kind="quantity")], {"use_dask": BoolV(False)}, self_val=dm),
+                      ev=ev, allowed_guards=[])
+    if hinf is not None and isinstance(hinf, Num):
+        finite = not hinf.expr.has(sp.nan) and not hinf.expr.has(sp.zoo)
+        ck.same("R1", f_tf.where, "transfer function for f_ref = inf", "finite (no inf/inf, 0*inf): the reference enters only through 1/f_ref",
+                finite, found=str(hinf.expr)[:120], nontrivial=True)
+        if finite:
+            want = expected_H(fc * Hz, sp.Symbol("FREF_INF", positive=True) * Hz, kb, N)
+            want = want.expr if isinstance(want, Num) else want
+            want = sp.limit(want, sp.Symbol("FREF_INF", positive=True), sp.oo) if not isinstance(want, tuple) else want
+            ck.eq("R1", f_tf.where, "transfer function for f_ref = inf: value", "H == exp(-2*pi*i*K*DM/f), the limit of the statement's formula", hinf, want)
     terms_by_mode = {}
     for use_dask in (False, True):
         ev = ck.evaluator()
